@@ -207,6 +207,67 @@ fn judge_garbage(v: &View) -> Verdict {
     }
     vd.class = hash_of(&fatal_at.values().map(|x| x.2.clone()).collect::<Vec<_>>());
     let last = v.out.entries.last().map(|e| e.seq).unwrap_or(0);
+    // what the real task decoded on each connection must be the reference decode of what its peer
+    // sent, in order, whatever the segmentation and whatever else the task did in between
+    {
+        let mut expect: BTreeMap<ConnId, Vec<Msg>> = BTreeMap::new();
+        let mut got: BTreeMap<ConnId, usize> = BTreeMap::new();
+        let mut last_push: BTreeMap<ConnId, u64> = BTreeMap::new();
+        for TL { seq, t, k } in &v.tl {
+            match k {
+                TK::P(c, Item::Msg(m)) => {
+                    expect.entry(*c).or_default().push(m.clone());
+                    last_push.insert(*c, *t);
+                }
+                TK::Raw(i) => {
+                    if let Ev::Decoded { addr, frame, .. } = v.ev(*i) {
+                        if let Some(c) = v.conn_of_addr_at(addr, *seq) {
+                            let k = *got.get(&c).unwrap_or(&0);
+                            got.insert(c, k + 1);
+                            match expect.get(&c).and_then(|e| e.get(k)) {
+                                None => vd.fail(
+                                    "C06",
+                                    "C06.task-extra-frame",
+                                    format!("conn {}: task decoded frame #{} {} but its peer has sent only {} complete messages", c, k, &frame[..frame.len().min(80)], expect.get(&c).map(|e| e.len()).unwrap_or(0)),
+                                    *seq,
+                                ),
+                                Some(m) => {
+                                    if m.norm() != Some(norm_debug(frame)) {
+                                        vd.fail(
+                                            "C06",
+                                            "C06.task-wrong-frame",
+                                            format!("conn {}: frame #{} decoded as {} but the peer sent {}", c, k, &frame[..frame.len().min(80)], crate::actors::brief(m)),
+                                            *seq,
+                                        );
+                                    }
+                                }
+                            }
+                        }
+                    }
+                }
+                _ => {}
+            }
+        }
+        // prompt at the end of the run: everything a still-open, well-formed connection delivered
+        // more than a second ago has been decoded
+        for (c, e) in &expect {
+            let info = match v.conns.get(c) {
+                Some(i) => i,
+                None => continue,
+            };
+            let open = info.client_close.is_none();
+            let settled = v.out.end_ms >= last_push.get(c).cloned().unwrap_or(0) + 1000;
+            let g = got.get(c).cloned().unwrap_or(0);
+            if open && settled && !fatal_at.contains_key(c) && g < e.len() {
+                vd.fail(
+                    "C06",
+                    "C06.task-not-prompt",
+                    format!("conn {} ({}): peer sent {} complete messages, the task decoded {} and waits", c, info.addr, e.len(), g),
+                    last,
+                );
+            }
+        }
+    }
     for (c, (seq, t0, why)) in &fatal_at {
         vd.nontrivial = true;
         vd.probe("fatal_or_truncated_stream_to_task");
